@@ -29,7 +29,7 @@ def kind_scope(*mods):
 PROPS = {
     "C10": {
         "rules": [r_panic.run, r_panic.run_errprop, r_panic.run_narrow_arith,
-                  kind_scope("dictionary::connector", "dictionary::mapper"), r_cand.unkcover,
+                  kind_scope("dictionary::connector", "dictionary::mapper", "dictionary::unknown", "dictionary::lexicon"), r_cand.unkcover,
                   r_panic.run_tok, r_map.verifystrict],
         "explanation": "PANIC: every potential panic or silent-wrap site (assert terminators for "
                        "bounds/overflow/division/shift, calls to unwrap/expect/panic!/assert!/"
@@ -92,7 +92,7 @@ PROPS = {
                      "sign-parity and scale-source rules",
     },
     "C16": {
-        "rules": [r_fmt.run_c16, r_cost.run_c16, kind_scope("trainer::model", "raw_connector"), r_kind.bins("dictgen-bin", "compile-bin"),
+        "rules": [r_fmt.run_c16, r_cost.run_c16, kind_scope("trainer::model", "raw_connector"), r_kind.bins("dictgen-bin", "compile-bin"), r_fmt.csvrow,
                   r_scorer.reserved0, r_scorer.padval, r_scorer.rowrange, r_scorer.pruneset,
                   r_misc.bigram_details_shape, r_scorer.rawbuild],
         "explanation": "FMT: bigram.left/right lines are `id TAB csv` with 1-based ids (what "
@@ -108,8 +108,8 @@ PROPS = {
     },
     "C18": {
         "rules": [kind_scope("trainer", "mecab"), r_fmt.bigram_files, r_codec.run_c18,
-                  r_misc.template_cover, r_misc.regex_trainer, r_misc.csvsplit, r_misc.bigram_details_shape,
-                  r_writedict.chartype],
+                  r_misc.template_cover, r_misc.regex_trainer, r_misc.csvsplit, r_fmt.csvrow, r_misc.bigram_details_shape,
+                  r_writedict.chartype, r_rewrite.run],
         "explanation": "KIND over the trainer: unigram/left/right templates, id tables and "
                        "next-id counters are never mixed (same-family rule on "
                        "extract_feature_ids), extract_left/right results reach the matching "
@@ -136,7 +136,7 @@ PROPS = {
         "technique": "format-template decoding + reader dataflow (sibling cross-check)",
     },
     "C20": {
-        "rules": [kind_scope("mecab"), r_cost.run_c20, r_fmt.bigram_files, r_misc.template_cover,
+        "rules": [kind_scope("mecab"), r_fmt.csvrow, r_cost.run_c20, r_fmt.bigram_files, r_misc.template_cover,
                   r_scorer.scorer_build, r_misc.regex_mecab, r_scorer.padval, r_scorer.reserved0, r_misc.mecab_ids],
         "explanation": "KIND: the documented left/right inversion of right-id.def/left-id.def is "
                        "applied consistently (readers, extractors, maps, writers, loop bounds vs "
@@ -149,7 +149,7 @@ PROPS = {
         "technique": "kind propagation, format-template decoding, sign-parity rule",
     },
     "C07": {
-        "rules": [r_scorer.run, kind_scope("connector", "scorer", "builder"), r_kind.bins("compile-bin"), r_panic.run_narrow_connector,
+        "rules": [r_scorer.run, kind_scope("connector", "scorer", "builder"), r_kind.bins("compile-bin"), r_fmt.csvrow, r_panic.run_narrow_connector,
                   r_codec.derived_caches, r_codec.lanes_rule],
         "explanation": "SCORERCHK: in the portable build costs[pos] is read only on the true edge "
                        "of checks[pos] == key1 at pos = bases[key1] ^ key2; in the AVX2 build the "
@@ -324,7 +324,7 @@ PROPS = {
         "level_note": "Trusted: bincode/bincode_derive; rucrf's derived impls.",
         "technique": "sibling cross-check of encoder/decoder MIR",
     },    "C06": {
-        "rules": [r_map.run, r_scorer.rowrange, kind_scope("dictionary::connector", "dictionary::mapper"), r_kind.bins("map-bin"),
+        "rules": [r_map.run, r_scorer.rowrange, kind_scope("dictionary::connector", "dictionary::mapper", "dictionary::unknown", "dictionary::lexicon"), r_kind.bins("map-bin"),
                   r_misc.optkeep_dictionary],
         "explanation": "MAP rules over the MIR of Dictionary::map_connection_ids_from_iter, "
                        "reset_user_lexicon_from_reader and every map_connection_ids method: the "
@@ -343,8 +343,8 @@ PROPS = {
         "technique": "MIR must-pass-through / dominance rules over access paths, who-may-write",
     },
     "C17": {
-        "rules": [r_rewrite.run, kind_scope("trainer::config", "trainer::Trainer::extract_feature_set"),
-                  r_codec.run_c18, r_misc.regex_trainer, r_misc.csvsplit],
+        "rules": [r_rewrite.run, kind_scope("trainer::config", "trainer::Trainer::extract_feature_set"), kind_scope("trainer::model"),
+                  r_codec.run_c18, r_misc.regex_trainer, r_misc.csvsplit, r_fmt.csvrow],
         "explanation": "FIRSTMATCH-BUILD: FeatureRewriterBuilder::add_rule moves along an existing "
                        "trie edge only when that edge is the newest action of its node (or never), "
                        "and appends new actions: the rules below every edge are then a contiguous "
@@ -500,11 +500,14 @@ _ADDED2 = {
     "C03": "MAPKEEP (user-lexicon installation): every successful return of reset_user_lexicon_from_reader has assigned data.user_lexicon and a None reader stores None, so a cleared user lexicon contributes no candidates.",
     "C08": "MAPKEEP reset clauses: every Ok exit of reset_user_lexicon_from_reader assigns data.user_lexicon; with a None reader the only value assigned is None.",
     "C05": "LANES: U31x8::encode writes lanes 0..7 in order in both build configurations.",
-    "C07": "ACCUM (portable and AVX2 builds): accumulate_cost pairs keys1[i] with keys2[i] through plain zips (no skip/rev/take), starts at zero and only adds lookup results; the AVX2 build sums lanes 0..7 once each. SCORERCHK (AVX2) also requires base = bases[key1] gathered under key1 < bases_len, zero for masked-out lanes and the 4-byte gather scale. LANES as for C05. KIND over compile's main: the readers opened from --bigram-right-in / --bigram-left-in reach the builder parameters of their own side.",
+    "C07": "ACCUM (portable and AVX2 builds): accumulate_cost pairs keys1[i] with keys2[i] through plain zips (no skip/rev/take), starts at zero and only adds lookup results; the AVX2 build sums lanes 0..7 once each. SCORERCHK (AVX2) also requires base = bases[key1] gathered under key1 < bases_len, zero for masked-out lanes and the 4-byte gather scale. LANES as for C05. CSVROW as for C17 (cells of bigram.right/left lines). KIND over compile's main: the readers opened from --bigram-right-in / --bigram-left-in reach the builder parameters of their own side.",
     "C06": "KIND over map's main: the list read from *.lmap is the left mapping argument and *.rmap the right one.",
     "C13": "KIND over map's main as for C06 (the files reorder writes are consumed on their own side).",
     "C14": "KIND over dictgen's main: writers created with the .left / .right suffixes reach write_bigram_details' parameters of their own side.",
-    "C16": "KIND over dictgen's and compile's main: the .left/.right files are written from, and --bigram-left-in/--bigram-right-in read into, the parameters of their own side.",
+    "C17": "CSVROW: parse_csv_row appends every decoded chunk (OutputFull included), emits the accumulated cell on every Field/InputEmpty/End outcome - the empty last cell too - and advances the input by the consumed count.",
+    "C18": "CSVROW as for C17 (template column numbers). FIRSTMATCH-* (the C17 rules): templates expand the *rewritten* features, so a rewriter that applies a later rule changes every expansion.",
+    "C20": "CSVROW as for C17 (the id lines of left-id.def / right-id.def).",
+    "C16": "CSVROW as for C17 (bigram.left/right lines). KIND over dictgen's and compile's main: the .left/.right files are written from, and --bigram-left-in/--bigram-right-in read into, the parameters of their own side.",
 }
 for _p, _t in _ADDED2.items():
     PROPS[_p]["explanation"] += " " + _t
